@@ -1,7 +1,7 @@
 (* Proofs/FfsCodecProofs.v — property C06: compressed and nested content survives a save, and
    saving is a fixed point.  Lemmas about Model/Ffs.v under the codec hypothesis
    [dec_enc : enc k x = Some y -> dec k y = Some x] (no converse, no byte stability). *)
-From Fiano Require Import Base.Bytes Base.BytesLemmas Model.Ffs.
+From Fiano Require Import Base.Bytes Base.BytesLemmas Model.Ffs Model.FfsSpec Proofs.FfsVolLemmas.
 From Coq Require Import ZifyBool ZifyNat.
 Open Scope Z_scope.
 
@@ -142,6 +142,14 @@ Definition set_order (h : sechdr) (o : Z) : sechdr :=
 Definition set_fdo (h : filehdr) (o : Z) : filehdr :=
   mkFile (f_guid h) (f_ckh h) (f_ckf h) (f_type h) (f_attr h) (f_size3 h) (f_state h) (f_ext h) o (f_nvar h).
 
+(* volumes: the header checksum and the free-space figure kept in the node are stale after Assemble
+   (it writes the new checksum into the bytes only, and computes free space differently from the
+   parser when less than a file header of free space is left); Assemble reads neither *)
+Definition vnorm (h : volhdr) : volhdr :=
+  mkVol (v_zero h) (v_guid h) (v_length h) (v_sig h) (v_attrs h) (v_hdrlen h) 0 (v_exthdroff h)
+        (v_reserved h) (v_rev h) (v_blocks h) (v_extname h) (v_extsize h) (v_dataoff h)
+        (v_fvoffset h) (v_resizable h) 0.
+
 (* [strip] forgets two pieces of metadata that neither Assemble nor the bytes depend on: the
    FileOrder of sections (the index at which the parser met the section) and the DataOffset of
    files (24 or 32, recomputed by the parser from the size field; Assemble leaves the old value in
@@ -150,7 +158,7 @@ Fixpoint strip (n : node) : node :=
   match n with
   | NSec h buf kids => NSec (set_order h 0) buf (map strip kids)
   | NFile h buf kids => NFile (set_fdo h 0) buf (map strip kids)
-  | NVol h buf kids => NVol h buf (map strip kids)
+  | NVol h buf kids => NVol (vnorm h) buf (map strip kids)
   | NPad off buf => NPad off buf
   end.
 
@@ -1303,22 +1311,138 @@ Proof using Type. clear_sec.
   rewrite place_files_strip. reflexivity.
 Qed.
 
-Lemma asm_strip : forall n st, asm' (strip n) st = ostrip (asm' n st).
+(* Assemble of a volume, split after the files have been laid out *)
+Definition vol_finish (pol : Z) (ffs3 : bool) (h : volhdr) (b1 : bytes) (len : Z) (blocks : list (Z * Z))
+  : outcome (volhdr * bytes) :=
+    let newlen := zlen b1 in
+    let b2 := if newlen <? len then b1 ++ zrepeat pol (len - newlen) else b1 in
+    if zlen b2 <? 40 then Panic 204 else
+    let b3 := splice 32 (le_enc 8 len) b2 in
+    let g := if ffs3 && bytes_eqb (v_guid h) FFS2 then FFS3 else v_guid h in
+    let b4 := if ffs3 && bytes_eqb (v_guid h) FFS2 then splice 16 FFS3 b3 else b3 in
+    match blocks with
+    | [] => Panic 205
+    | (c, s) :: _ =>
+      if zlen b4 <? 60 then Panic 206 else
+      let b5 := splice 56 (le_enc 4 c) b4 in
+      let b6 := splice 50 [0; 0] b5 in
+      match slice 0 (v_hdrlen h) b6 with
+      | None => Panic 207
+      | Some hb =>
+        if negb (Z.even (v_hdrlen h)) then Err E_ODD else
+        let sum := (0 - sum16 hb) mod 65536 in
+        let b7 := splice 50 (le_enc 2 sum) b6 in
+        Ok (mkVol (v_zero h) g len (v_sig h) (v_attrs h) (v_hdrlen h) (v_cksum h) (v_exthdroff h)
+                  (v_reserved h) (v_rev h) blocks (v_extname h) (v_extsize h) (v_dataoff h)
+                  (v_fvoffset h) (v_resizable h) ((len - align8 newlen) mod U64), b7)
+      end
+    end.
+
+Lemma asm_vol_eq pol ffs3 h buf files :
+  asm_vol pol ffs3 h buf files =
+  if (match files with [] => true | _ => false end) && negb (supported_fv (v_guid h)) then Ok (h, buf) else
+    if v_length h <? zlen buf then Err E_BUFBIG else
+    match v_blocks h with [] => Err E_BLOCK0 | _ =>
+    if v_dataoff h <? v_hdrlen h then Err E_BUFBIG else
+    if zlen buf <? v_dataoff h then Err E_BUFBIG else
+    do hdr <- of_opt 202 (slice 0 (v_dataoff h) buf);
+    do b1 <- place_files pol (if v_resizable h then None else Some (v_length h)) hdr (v_dataoff h) files;
+    if (v_length h <? zlen b1) && negb (v_resizable h) then Err E_NOSPACE else
+    do lb <-
+      (if v_length h <? zlen b1 then
+         match v_blocks h with
+         | [] => Panic 203
+         | (c, s) :: rest =>
+           if s =? 0 then Err E_BLOCK0 else
+           Ok (align_go (zlen b1) s, ((align_go (zlen b1) s / s) mod U32, s) :: rest)
+         end
+       else Ok (v_length h, v_blocks h));
+    let '(len, blocks) := lb in vol_finish pol ffs3 h b1 len blocks
+    end.
+Proof using Type. clear_sec. reflexivity. Qed.
+
+Definition ovnorm (r : outcome (volhdr * bytes)) : outcome (volhdr * bytes) :=
+  match r with Ok (h, b) => Ok (vnorm h, b) | Err e => Err e | Panic p => Panic p | Fuel => Fuel end.
+
+Lemma vol_finish_vnorm pol ffs3 h b1 len blocks :
+  ovnorm (vol_finish pol ffs3 (vnorm h) b1 len blocks) = ovnorm (vol_finish pol ffs3 h b1 len blocks).
 Proof using Type. clear_sec.
-  assert (L : forall kids, Forall (fun n => forall st, asm' (strip n) st = ostrip (asm' n st)) kids ->
-              forall st, asml (map strip kids) st = olstrip (asml kids st)).
+  unfold vol_finish. cbv zeta.
+  change (v_guid (vnorm h)) with (v_guid h). change (v_hdrlen (vnorm h)) with (v_hdrlen h).
+  match goal with |- context [if ?c then Panic 204 else _] => destruct c end; [reflexivity|].
+  destruct blocks as [|[c s] bt]; [reflexivity|].
+  match goal with |- context [if ?c then Panic 206 else _] => destruct c end; [reflexivity|].
+  match goal with |- context [match ?e with Some _ => _ | None => Panic 207 end] => destruct e end; [|reflexivity].
+  destruct (negb (Z.even (v_hdrlen h))); reflexivity.
+Qed.
+
+Lemma asm_vol_vnorm pol ffs3 h buf files :
+  ovnorm (asm_vol pol ffs3 (vnorm h) buf files) = ovnorm (asm_vol pol ffs3 h buf files).
+Proof using Type. clear_sec.
+  rewrite !asm_vol_eq.
+  change (v_guid (vnorm h)) with (v_guid h). change (v_hdrlen (vnorm h)) with (v_hdrlen h).
+  change (v_length (vnorm h)) with (v_length h). change (v_blocks (vnorm h)) with (v_blocks h).
+  change (v_dataoff (vnorm h)) with (v_dataoff h). change (v_resizable (vnorm h)) with (v_resizable h).
+  match goal with |- ovnorm (if ?c then _ else _) = _ => destruct c end; [reflexivity|].
+  destruct (v_length h <? zlen buf); [reflexivity|].
+  destruct (v_blocks h) as [|[c0 s0] bl]; [reflexivity|].
+  destruct (v_dataoff h <? v_hdrlen h); [reflexivity|].
+  destruct (zlen buf <? v_dataoff h); [reflexivity|].
+  destruct (of_opt 202 (slice 0 (v_dataoff h) buf)) as [hdr| | |]; cbn [bind]; try reflexivity.
+  destruct (place_files pol _ hdr (v_dataoff h) files) as [b1| | |]; cbn [bind]; try reflexivity.
+  destruct ((v_length h <? zlen b1) && negb (v_resizable h)); [reflexivity|].
+  match goal with |- ovnorm (bind ?e _) = _ => destruct e as [[len blocks]| | |] end; cbn [bind]; try reflexivity.
+  apply vol_finish_vnorm.
+Qed.
+
+Lemma strip_strip n : strip (strip n) = strip n.
+Proof using Type. clear_sec.
+  induction n as [h buf kids IH|h buf kids IH|h buf kids IH|] using node_ind'; cbn [strip]; try reflexivity;
+    f_equal; rewrite map_map; apply map_ext_in; intros k Hk; rewrite Forall_forall in IH; auto.
+Qed.
+
+(* Assemble does not look at what [strip] forgets: the results agree up to [strip] *)
+Lemma asm_strip : forall n st, ostrip (asm' (strip n) st) = ostrip (asm' n st).
+Proof using Type. clear_sec.
+  assert (L : forall kids, Forall (fun n => forall st, ostrip (asm' (strip n) st) = ostrip (asm' n st)) kids ->
+              forall st, olstrip (asml (map strip kids) st) = olstrip (asml kids st)).
   { induction 1 as [|k r Hk Hr IH]; intros st; cbn [map asm_elems]; [reflexivity|].
-    rewrite Hk. destruct (asm' k st) as [[k' st1]| | |]; cbn [ostrip bind olstrip]; try reflexivity.
-    rewrite IH. destruct (asml r st1) as [[r' st2]| | |]; cbn [olstrip bind]; reflexivity. }
+    specialize (Hk st).
+    destruct (asm' (strip k) st) as [[k1 s1]| | |], (asm' k st) as [[k' st1]| | |];
+      cbn [ostrip] in Hk; try discriminate; cbn [bind olstrip]; try congruence.
+    injection Hk as Ek Es. subst s1. specialize (IH st1).
+    destruct (asml (map strip r) st1) as [[r1 s2]| | |], (asml r st1) as [[r' st2]| | |];
+      cbn [olstrip] in IH; try discriminate; cbn [bind olstrip]; try congruence.
+    injection IH as Er Es. subst s2. cbn [map]. rewrite Ek, Er. reflexivity. }
   induction n as [h buf kids IH|h buf kids IH|h buf kids IH|] using node_ind'; intros st; cbn [strip].
-  - rewrite !asm_sec, (L kids IH). destruct (asml kids st) as [[kids' st1]| | |]; cbn [olstrip bind ostrip]; try reflexivity.
-    apply sec_asm_strip.
-  - rewrite !asm_file, (L kids IH). destruct (asml kids st) as [[kids' st1]| | |]; cbn [olstrip bind ostrip]; try reflexivity.
-    rewrite file_asm_strip. unfold ostrip. reflexivity.
-  - rewrite !asm_volume. destruct (set_polarity _ _); [|reflexivity].
-    rewrite (L kids IH). destruct (asml kids _) as [[kids' st1]| | |]; cbn [olstrip bind ostrip]; try reflexivity.
-    unfold vol_asm. destruct st1 as [p f]. rewrite asm_vol_strip.
-    destruct (asm_vol p f h buf kids') as [[h' nb]| | |]; cbn [bind ostrip strip]; try reflexivity.
+  - rewrite !asm_sec. specialize (L kids IH st).
+    destruct (asml (map strip kids) st) as [[K1 s1]| | |], (asml kids st) as [[kids' st1]| | |];
+      cbn [olstrip] in L; try discriminate; cbn [bind ostrip]; try congruence.
+    injection L as EK Es. subst s1.
+    rewrite <- (sec_asm_strip h buf kids' st1). rewrite <- EK.
+    rewrite <- (set_order_set h 0 0) at 2. apply eq_sym. apply sec_asm_strip.
+  - rewrite !asm_file. specialize (L kids IH st).
+    destruct (asml (map strip kids) st) as [[K1 s1]| | |], (asml kids st) as [[kids' st1]| | |];
+      cbn [olstrip] in L; try discriminate; cbn [bind ostrip]; try congruence.
+    injection L as EK Es. subst s1.
+    pose proof (file_asm_strip h buf kids' st1) as A. pose proof (file_asm_strip (set_fdo h 0) buf K1 st1) as B.
+    change (set_fdo (set_fdo h 0) 0) with (set_fdo h 0) in B. rewrite EK in B. rewrite A in B.
+    unfold ostrip. exact (eq_sym B).
+  - rewrite !asm_volume. change (v_attrs (vnorm h)) with (v_attrs h).
+    destruct (set_polarity _ _); [|reflexivity].
+    specialize (L kids IH (z, false)).
+    destruct (asml (map strip kids) (z, false)) as [[K1 s1]| | |], (asml kids (z, false)) as [[kids' st1]| | |];
+      cbn [olstrip] in L; try discriminate; cbn [bind ostrip]; try congruence.
+    injection L as EK Es. subst s1.
+    unfold vol_asm. destruct st1 as [p f].
+    pose proof (asm_vol_vnorm p f h buf K1) as V.
+    rewrite <- (asm_vol_strip p f h buf K1), EK, asm_vol_strip in V.
+    rewrite <- (asm_vol_strip p f (vnorm h) buf K1), EK, asm_vol_strip in V.
+    rewrite <- (asm_vol_strip p f (vnorm h) buf K1), EK, asm_vol_strip.
+    destruct (asm_vol p f (vnorm h) buf kids') as [[h1 nb1]| | |], (asm_vol p f h buf kids') as [[h' nb]| | |];
+      cbn [ovnorm] in V; try discriminate; cbn [bind ostrip strip]; try congruence.
+    assert (Eh : vnorm h1 = vnorm h') by congruence. assert (Eb : nb1 = nb) by congruence.
+    rewrite Eh, Eb, EK. reflexivity.
   - reflexivity.
 Qed.
 
@@ -2055,6 +2179,482 @@ Proof using Type. clear_sec.
   replace (zlen (chdr ++ vb) <=? hl) with false by lia.
   replace (zskipn hl (chdr ++ vb)) with vb by (rewrite <- Hlen; symmetry; apply zskipn_app_exact).
   rewrite Hrf. cbn [bind]. reflexivity.
+Qed.
+
+
+(* ========================================================================================== *)
+(* stage 3: volumes                                                                            *)
+(* ========================================================================================== *)
+
+(* ---------- the file loop over a laid-out file list ---------- *)
+
+Lemma play_flay_len : forall F u, 0 <= u ->
+  align8 (u + zlen (play u F)) = align8 u + zlen (flay F).
+Proof using Type. clear_sec.
+  induction F as [|f r IH]; intros u Hu.
+  - cbn [play flay]. change (zlen (@nil Z)) with 0. rewrite !Z.add_0_r. reflexivity.
+  - cbn [play]. rewrite zlen_flay_cons. destruct (align8_spec u Hu) as [B M].
+    pose proof (zlen_nonneg f) as Hf.
+    rewrite !zlen_app, FfsVolLemmas.zlen_zrepeat by lia.
+    replace (u + (align8 u - u + (zlen f + zlen (play (align8 u + zlen f) r))))
+      with ((align8 u + zlen f) + zlen (play (align8 u + zlen f) r)) by lia.
+    rewrite IH by lia. rewrite align8_add by lia. lia.
+Qed.
+
+Lemma align8_le a x : 0 <= x -> x <= a -> a mod 8 = 0 -> align8 x <= a.
+Proof using Type. clear_sec.
+  intros Hx Hle Hm. destruct (align8_spec x Hx) as [B M].
+  destruct (Z_le_gt_dec (align8 x) a) as [|Hgt]; [assumption|].
+  pose proof (align8_unique x a Hx ltac:(lia) Hm). lia.
+Qed.
+
+Lemma files_loop_strip d kids : Forall (reparses_file (pfile (S d)) 255) kids ->
+  forall free rest P u n, 0 <= free -> 0 <= u -> u <= zlen P < u + 8 -> (zlen P) mod 8 = 0 ->
+  (length kids < n)%nat ->
+  exists kids2 fs,
+    files_loop (pfile (S d)) n (P ++ flay (map node_buf kids) ++ zrepeat 255 free ++ rest)
+               (zlen P + zlen (flay (map node_buf kids)) + free) 255 u = Ok (kids2, 255, fs) /\
+    map strip kids2 = map strip kids.
+Proof.
+  induction 1 as [|k r Hk Hr IH]; intros free rest P u n Hfree Hu HP HM Hn.
+  - destruct n as [|n]; [cbn in Hn; lia|]. cbn [map flay app]. change (zlen (@nil Z)) with 0.
+    cbn [files_loop].
+    rewrite (align8_unique u (zlen P)) by lia.
+    destruct (u + 24 <=? zlen P + 0 + free) eqn:E1.
+    + destruct (zlen P + 0 + free <? zlen P + 24) eqn:E2.
+      * exists [], 0. split; reflexivity.
+      * replace (zlen P + 0 + free - zlen P) with free by lia.
+        assert (Es : sub (zlen P) free (P ++ zrepeat 255 free ++ rest) = zrepeat 255 free).
+        { rewrite (sub_app_skip P _ (zlen P) free (zlen P)) by lia. rewrite Z.sub_diag.
+          apply sub_app_here. apply FfsVolLemmas.zlen_zrepeat; lia. }
+        rewrite Es. rewrite parse_free by lia. cbn [bind].
+        eexists [], _. split; reflexivity.
+    + exists [], 0. split; reflexivity.
+  - destruct n as [|n]; [cbn in Hn; lia|]. cbn [length] in Hn. cbn [map].
+    destruct Hk as (H24 & Hp). set (f := node_buf k) in *. set (F := map node_buf r) in *.
+    pose proof (zlen_nonneg f) as Hfn. destruct (align8_spec (zlen f) Hfn) as [Bf Mf].
+    pose proof (zlen_nonneg (flay F)) as Hrn.
+    rewrite zlen_flay_cons.
+    set (len := zlen P + (align8 (zlen f) + zlen (flay F)) + free).
+    cbn [files_loop].
+    replace (u + 24 <=? len) with true by (unfold len; lia).
+    rewrite (align8_unique u (zlen P)) by lia.
+    replace (len <? zlen P + 24) with false by (unfold len; lia).
+    set (pad := zrepeat 255 (align8 (zlen f) - zlen f)).
+    assert (Lpad : zlen pad = align8 (zlen f) - zlen f) by (apply FfsVolLemmas.zlen_zrepeat; lia).
+    assert (Es : sub (zlen P) (len - zlen P) (P ++ flay (f :: F) ++ zrepeat 255 free ++ rest)
+                 = f ++ (pad ++ flay F ++ zrepeat 255 free)).
+    { rewrite (sub_app_skip P _ (zlen P) _ (zlen P)) by lia. rewrite Z.sub_diag.
+      cbn [flay]. fold pad.
+      replace ((f ++ pad ++ flay F) ++ zrepeat 255 free ++ rest)
+        with ((f ++ pad ++ flay F ++ zrepeat 255 free) ++ rest) by (rewrite <- !app_assoc; reflexivity).
+      apply sub_app_here. rewrite !zlen_app, Lpad, FfsVolLemmas.zlen_zrepeat by lia. unfold len. lia. }
+    rewrite Es.
+    destruct (Hp (pad ++ flay F ++ zrepeat 255 free)) as (k2 & Ep & Est & Ee).
+    fold f in Ep. rewrite Ep. cbn [bind]. fold f in Ee. rewrite Ee.
+    replace (zlen f =? 0) with false by lia.
+    destruct (IH free rest (P ++ f ++ pad) (zlen P + zlen f) n) as (kids2 & fs & El & Em); try lia.
+    { rewrite !zlen_app, Lpad. lia. }
+    { rewrite !zlen_app, Lpad. replace (zlen P + (zlen f + (align8 (zlen f) - zlen f)))
+        with (zlen P + align8 (zlen f)) by lia.
+      rewrite Z.add_mod by lia. rewrite HM, Mf. reflexivity. }
+    replace ((P ++ f ++ pad) ++ flay F ++ zrepeat 255 free ++ rest)
+      with (P ++ flay (f :: F) ++ zrepeat 255 free ++ rest) in El
+      by (cbn [flay]; fold pad; rewrite <- !app_assoc; reflexivity).
+    replace (zlen (P ++ f ++ pad) + zlen (flay F) + free) with len in El
+      by (rewrite !zlen_app, Lpad; unfold len; lia).
+    rewrite El. cbn [bind].
+    exists (k2 :: kids2), fs. split; [reflexivity|]. cbn [map]. rewrite Est, Em. reflexivity.
+Qed.
+
+
+(* ---------- parsing a volume in the reference layout ---------- *)
+
+(* the region between the header and the first file: nothing (eo = 0), or an extended header right
+   after the header followed by the bytes up to the next 8-byte boundary (as ext_ok of C01) *)
+Definition xh_ok (hl eo : Z) (ext : bytes) : Prop :=
+  (eo = 0 /\ ext = []) \/
+  (eo = hl /\ exists name edata gap, ext = ext_bytes name edata gap /\ zlen name = 16 /\
+     20 + zlen edata < 2 ^ 32 /\ zlen gap < 8 /\ (hl + zlen ext) mod 8 = 0).
+
+Definition xname (eo : Z) (ext : bytes) : bytes := if eo =? 0 then [] else sub 0 16 ext.
+Definition xsize (eo : Z) (ext : bytes) : Z := if eo =? 0 then 0 else rd 16 4 ext.
+
+Definition SIG : Z := 1213613663.   (* "_FVH" *)
+
+(* the header record the parser builds for a reference-layout volume *)
+Definition ref_hdr (zero g : bytes) (len attrs ck eo reserved rev count bsize : Z) (more : list (Z * Z))
+           (ext : bytes) (off : Z) (rz : bool) (fs : Z) : volhdr :=
+  mkVol zero g len SIG attrs (fv_hlen more) ck eo reserved rev ((count, bsize) :: more)
+        (xname eo ext) (xsize eo ext) (fv_hlen more + zlen ext) off rz fs.
+
+Record vparams := mkVP {
+  vp_zero : bytes; vp_attrs : Z; vp_reserved : Z; vp_rev : Z; vp_bsize : Z; vp_more : list (Z * Z);
+  vp_eo : Z; vp_ext : bytes }.
+
+Definition vp_ok (p : vparams) : Prop :=
+  zlen (vp_zero p) = 16 /\ 0 <= vp_attrs p < 2 ^ 32 /\ Z.land (vp_attrs p) 2048 <> 0 /\
+  0 < vp_bsize p < 2 ^ 32 /\ forallb block_ok (vp_more p) = true /\ fv_hlen (vp_more p) < 65536 /\
+  xh_ok (fv_hlen (vp_more p)) (vp_eo p) (vp_ext p).
+
+Definition vp_bytes (p : vparams) (g : bytes) (count : Z) (F : list bytes) (free : Z) : bytes :=
+  vol_bytes_x (vp_zero p) g (vp_attrs p) (vp_reserved p) (vp_rev p) count (vp_bsize p) (vp_more p)
+              (vp_eo p) (vp_ext p) F free.
+
+Definition vp_hdr (p : vparams) (g : bytes) (len ck count off : Z) (rz : bool) (fs : Z) : volhdr :=
+  ref_hdr (vp_zero p) g len (vp_attrs p) ck (vp_eo p) (vp_reserved p) (vp_rev p) count (vp_bsize p)
+          (vp_more p) (vp_ext p) off rz fs.
+
+Definition vp_D (p : vparams) : Z := fv_hlen (vp_more p) + zlen (vp_ext p).
+
+Lemma vp_D_mod8 p : vp_ok p -> vp_D p mod 8 = 0 /\ 72 <= vp_D p /\ 0 <= vp_eo p < 65536.
+Proof using Type. clear_sec.
+  intros (_ & _ & _ & _ & _ & Hhl & Hx). unfold vp_D.
+  pose proof (fv_hlen_ge (vp_more p)). pose proof (fv_hlen_mod8 (vp_more p)). pose proof (zlen_nonneg (vp_ext p)).
+  destruct Hx as [(-> & ->)|(-> & name & edata & gap & _ & _ & _ & _ & M)].
+  - change (zlen (@nil Z)) with 0. rewrite Z.add_0_r. lia.
+  - lia.
+Qed.
+
+Lemma parse_fv_ref d pol p g count kids free rest off rz :
+  vp_ok p -> (g = FFS2 \/ g = FFS3) -> 0 <= count < 2 ^ 32 -> 0 <= free ->
+  (pol = 240 \/ pol = 255) ->
+  Forall (reparses_file (pfile (S d)) 255) kids ->
+  let F := map node_buf kids in
+  let vb := vp_bytes p g count F free in
+  zlen vb < 2 ^ 64 ->
+  exists kids2 fs ck,
+    pfv (S (S d)) pol (vb ++ rest) off rz = Ok (NVol (vp_hdr p g (zlen vb) ck count off rz fs) vb kids2, 255) /\
+    map strip kids2 = map strip kids /\
+    zlen vb = vp_D p + zlen (flay F) + free.
+Proof.
+  intros Hp Hg Hc Hfree Hpol0 Hkids F vb Hlen.
+  pose proof (vp_D_mod8 p Hp) as (HD8 & HD72 & Heo).
+  destruct Hp as (Lz & Hat & Hpolb & Hs & Hmore & Hhl & Hext).
+  destruct p as [zero attrs reserved rev bsize more eo ext].
+  cbn [vp_zero vp_attrs vp_reserved vp_rev vp_bsize vp_more vp_eo vp_ext] in *.
+  unfold vp_D in *. cbn [vp_more vp_ext] in *.
+  pose proof (zlen_nonneg ext) as Hextn.
+  pose proof (fv_hlen_ge more) as Hhg. pose proof (fv_hlen_mod8 more) as Hh8.
+  set (HL := fv_hlen more) in *. set (D := HL + zlen ext) in *.
+  assert (AD : align8 D = D) by (apply align8_unique; lia).
+  assert (Lg : zlen g = 16) by (destruct Hg as [-> | ->]; reflexivity).
+  assert (Sg : supported_fv g = true) by (destruct Hg as [-> | ->]; reflexivity).
+  pose proof (zlen_nonneg (flay F)) as Hfl.
+  unfold vp_hdr, ref_hdr, vp_bytes in *. cbn [vp_zero vp_attrs vp_reserved vp_rev vp_bsize vp_more vp_eo vp_ext] in *.
+  unfold vol_bytes_x in vb. fold HL in vb.
+  set (len := HL + zlen ext + zlen (flay F) + free) in *.
+  set (ck := fv_cksum zero g len attrs eo reserved rev count bsize more) in *.
+  assert (Hck : 0 <= ck < 65536) by (apply Z.mod_pos_bound; lia).
+  set (hdr := fv_header zero g len attrs ck eo reserved rev count bsize more) in *.
+  set (tail := ext ++ flay F ++ zrepeat 255 free).
+  assert (Lh : zlen hdr = HL) by (apply zlen_fv_header; auto).
+  assert (Lt : zlen tail = zlen ext + zlen (flay F) + free)
+    by (unfold tail; rewrite !zlen_app, FfsVolLemmas.zlen_zrepeat by lia; lia).
+  assert (Evb : vb = hdr ++ tail) by reflexivity.
+  assert (Lv : zlen vb = len) by (rewrite Evb, zlen_app, Lh, Lt; unfold len; lia).
+  assert (Hf24 : Forall (fun f => 24 <= zlen f) F).
+  { unfold F. clear - Hkids. induction Hkids as [|k r [H _] _ IH]; constructor; assumption. }
+  rewrite Lv in Hlen |- *.
+  destruct (fv_header_fields zero g len attrs ck eo reserved rev count bsize more (tail ++ rest) Lz Lg
+              ltac:(lia) Hat Hck Heo Hhl) as (F0 & F16 & F32 & F40 & F44 & F48 & F50 & F52 & F54 & F55 & F56).
+  fold hdr in F0, F16, F32, F40, F44, F48, F50, F52, F54, F55, F56.
+  rewrite app_assoc in F0, F16, F32, F40, F44, F48, F50, F52, F54, F55, F56.
+  rewrite <- Evb in F0, F16, F32, F40, F44, F48, F50, F52, F54, F55, F56.
+  set (data := vb ++ rest) in *.
+  pose proof (zlen_nonneg rest) as Hrest.
+  assert (Ld : zlen data = len + zlen rest) by (unfold data; rewrite zlen_app, Lv; reflexivity).
+  assert (Epol : fv_polarity attrs = 255).
+  { unfold fv_polarity. destruct (Z.land attrs 2048 =? 0) eqn:E; [lia|reflexivity]. }
+  assert (Esp : set_polarity pol 255 = Some 255) by (destruct Hpol0 as [-> | ->]; reflexivity).
+  change (pfv (S (S d)) pol data off rz) with (fv_body (pfile (S d)) pol data off rz).
+  unfold fv_body. rewrite Ld.
+  replace (len + zlen rest <? 64) with false by lia.
+  rewrite F0, F16, F32, F40, F44, F48, F50, F52, F54, F55, F56.
+  rewrite parse_blocks_one by (auto; unfold HL, fv_hlen in *; lia). cbn [bind].
+  rewrite Epol, Esp.
+  replace (len + zlen rest <? len) with false by lia.
+  replace (len <? 64) with false by lia.
+  cbv zeta. fold HL.
+  set (hb := negb (eo =? 0) && (20 <=? len) && (eo <? len - 20)).
+  assert (Ext : (if hb then sub eo 16 data else []) = xname eo ext /\
+                (if hb then rd (eo + 16) 4 data else 0) = xsize eo ext /\
+                align8 (if hb then eo + (if hb then rd (eo + 16) 4 data else 0) else HL) = D).
+  { destruct Hext as [(-> & ->)|(-> & name & edata & gap & Ee & Ln & Hes & Hg8 & M)].
+    - unfold hb. change (negb (0 =? 0)) with false. cbn [andb]. cbv iota. unfold xname, xsize.
+      change (0 =? 0) with true. cbv iota. repeat split. unfold D. change (zlen (@nil Z)) with 0.
+      rewrite Z.add_0_r. apply align8_unique; lia.
+    - assert (Le : zlen ext = 16 + 4 + zlen edata + zlen gap).
+      { rewrite Ee. unfold ext_bytes. rewrite !zlen_app, Ln, le4'. lia. }
+      pose proof (zlen_nonneg edata). pose proof (zlen_nonneg gap).
+      assert (Hx8 : zlen ext mod 8 = 0).
+      { pose proof M as M'. rewrite Z.add_mod in M' by lia. rewrite Hh8 in M'. rewrite Z.add_0_l, Z.mod_mod in M' by lia. exact M'. }
+      assert (Hx24 : 24 <= zlen ext).
+      { pose proof (Z.div_mod (zlen ext) 8 ltac:(lia)) as Dm. rewrite Hx8 in Dm. lia. }
+      replace hb with true by (unfold hb, len; lia).
+      unfold xname, xsize. replace (HL =? 0) with false by lia.
+      assert (Hd : data = hdr ++ ext ++ (flay F ++ zrepeat 255 free) ++ rest).
+      { unfold data. rewrite Evb. unfold tail. rewrite <- !app_assoc. reflexivity. }
+      assert (Esn : sub HL 16 data = sub 0 16 ext).
+      { rewrite Hd. rewrite (sub_app_skip hdr _ HL 16 HL) by (auto; lia). rewrite Z.sub_diag.
+        apply sub_app_l; lia. }
+      assert (Esz0 : rd (HL + 16) 4 data = rd 16 4 ext).
+      { rewrite Hd. rewrite (rd_app_skip hdr _ (HL + 16) 4 HL) by (auto; lia).
+        replace (HL + 16 - HL) with 16 by lia. apply rd_app_l; simpl; lia. }
+      assert (Esz : rd 16 4 ext = 20 + zlen edata).
+      { rewrite Ee. unfold ext_bytes.
+        rewrite (rd_app_skip name _ 16 4 16) by (auto; lia). change (16 - 16) with 0.
+        rewrite rd_app_here by apply le4'. apply le_dec_enc. change (256 ^ Z.of_nat 4) with (2 ^ 32). lia. }
+      rewrite Esn, Esz0. repeat split. rewrite Esz. apply align8_unique; unfold D; lia. }
+  destruct Ext as (E1 & E2 & E3). rewrite E1, E3.
+  match goal with |- context [mkVol _ _ _ _ _ _ _ _ _ _ _ _ ?es _ _ _ _] =>
+    replace es with (xsize eo ext) by (symmetry; exact E2) end.
+  assert (Esub : sub 0 len data = vb) by (unfold data; apply sub_app_here; exact Lv).
+  rewrite Esub. rewrite Sg. cbn [negb]. cbv iota.
+  assert (LP : zlen (hdr ++ ext) = D) by (rewrite zlen_app, Lh; reflexivity).
+  assert (G1 : D <= zlen (hdr ++ ext) < D + 8) by lia.
+  assert (G2 : zlen (hdr ++ ext) mod 8 = 0) by (rewrite LP; exact HD8).
+  assert (G3 : (length kids < Z.to_nat (len + zlen rest) + 1)%nat).
+  { pose proof (zlen_flay_ge F Hf24) as HG. unfold F in HG. rewrite map_length in HG. fold F in HG.
+    unfold len. unfold bytes in *. lia. }
+  destruct (files_loop_strip d kids Hkids free rest (hdr ++ ext) D
+              (Z.to_nat (len + zlen rest) + 1)%nat Hfree ltac:(lia) G1 G2 G3)
+    as (kids2 & fs & El & Em).
+  fold F in El. rewrite LP in El.
+  replace ((hdr ++ ext) ++ flay F ++ zrepeat 255 free ++ rest) with data in El
+    by (unfold data; rewrite Evb; unfold tail; rewrite <- !app_assoc; reflexivity).
+  replace (D + zlen (flay F) + free) with len in El by (unfold len, D; lia).
+  rewrite El. cbn [bind].
+  exists kids2, fs, ck. split; [reflexivity|]. split; [exact Em|]. unfold len, D. lia.
+Qed.
+
+
+(* ---------- the header fix-ups of Assemble on a reference header ---------- *)
+
+Lemma hdr_splice_len zero g l l' attrs ck eo reserved rev count bsize more T :
+  zlen zero = 16 -> zlen g = 16 ->
+  splice 32 (le_enc 8 l') (fv_header zero g l attrs ck eo reserved rev count bsize more ++ T) =
+  fv_header zero g l' attrs ck eo reserved rev count bsize more ++ T.
+Proof using Type. clear_sec.
+  intros Lz Lg. unfold fv_header. rewrite <- !app_assoc.
+  rewrite (app_assoc zero g). replace 32 with (zlen (zero ++ g)) by (rewrite zlen_app; lia).
+  rewrite (splice_mid (zero ++ g) (le_enc 8 l') (le_enc 8 l)) by (rewrite !le8'; reflexivity).
+  rewrite <- !app_assoc. reflexivity.
+Qed.
+
+Lemma hdr_splice_guid zero g g' l attrs ck eo reserved rev count bsize more T :
+  zlen zero = 16 -> zlen g = 16 -> zlen g' = 16 ->
+  splice 16 g' (fv_header zero g l attrs ck eo reserved rev count bsize more ++ T) =
+  fv_header zero g' l attrs ck eo reserved rev count bsize more ++ T.
+Proof using Type. clear_sec.
+  intros Lz Lg Lg'. unfold fv_header. rewrite <- !app_assoc. rewrite <- Lz.
+  apply splice_mid. lia.
+Qed.
+
+Lemma hdr_splice_count zero g l attrs ck eo reserved rev count count' bsize more T :
+  zlen zero = 16 -> zlen g = 16 ->
+  splice 56 (le_enc 4 count') (fv_header zero g l attrs ck eo reserved rev count bsize more ++ T) =
+  fv_header zero g l attrs ck eo reserved rev count' bsize more ++ T.
+Proof using Type. clear_sec.
+  intros Lz Lg. unfold fv_header. rewrite <- !app_assoc.
+  set (A := zero ++ g ++ le_enc 8 l ++ [95; 70; 86; 72] ++ le_enc 4 attrs ++ le_enc 2 (fv_hlen more) ++
+            le_enc 2 ck ++ le_enc 2 eo ++ [reserved; rev]).
+  assert (LA : zlen A = 56).
+  { unfold A. rewrite !zlen_app, Lz, Lg, le8', le4', !le2'. reflexivity. }
+  replace (zero ++ g ++ le_enc 8 l ++ [95; 70; 86; 72] ++ le_enc 4 attrs ++ le_enc 2 (fv_hlen more) ++
+           le_enc 2 ck ++ le_enc 2 eo ++ [reserved; rev] ++ le_enc 4 count ++
+           le_enc 4 bsize ++ blocks_bytes more ++ zrepeat 0 8 ++ T)
+    with (A ++ le_enc 4 count ++ le_enc 4 bsize ++ blocks_bytes more ++ zrepeat 0 8 ++ T)
+    by (unfold A; rewrite <- !app_assoc; reflexivity).
+  rewrite <- LA. rewrite splice_mid by (rewrite !le4'; reflexivity).
+  unfold A. rewrite <- !app_assoc. reflexivity.
+Qed.
+
+Lemma hdr_splice_ck zero g l attrs ck ck' eo reserved rev count bsize more T :
+  zlen zero = 16 -> zlen g = 16 ->
+  splice 50 (le_enc 2 ck') (fv_header zero g l attrs ck eo reserved rev count bsize more ++ T) =
+  fv_header zero g l attrs ck' eo reserved rev count bsize more ++ T.
+Proof using Type. clear_sec.
+  intros Lz Lg. unfold fv_header. rewrite <- !app_assoc.
+  set (A := zero ++ g ++ le_enc 8 l ++ [95; 70; 86; 72] ++ le_enc 4 attrs ++ le_enc 2 (fv_hlen more)).
+  assert (LA : zlen A = 50).
+  { unfold A. rewrite !zlen_app, Lz, Lg, le8', le4', !le2'. reflexivity. }
+  replace (zero ++ g ++ le_enc 8 l ++ [95; 70; 86; 72] ++ le_enc 4 attrs ++ le_enc 2 (fv_hlen more) ++
+           le_enc 2 ck ++ le_enc 2 eo ++ [reserved; rev] ++ le_enc 4 count ++
+           le_enc 4 bsize ++ blocks_bytes more ++ zrepeat 0 8 ++ T)
+    with (A ++ le_enc 2 ck ++ le_enc 2 eo ++ [reserved; rev] ++ le_enc 4 count ++
+           le_enc 4 bsize ++ blocks_bytes more ++ zrepeat 0 8 ++ T)
+    by (unfold A; rewrite <- !app_assoc; reflexivity).
+  rewrite <- LA. rewrite splice_mid by (rewrite !le2'; reflexivity).
+  unfold A. rewrite <- !app_assoc. reflexivity.
+Qed.
+
+(* Assemble of a volume after the files have been placed in the reference layout: the bytes are the
+   reference layout again, with the new length, block count, file-system GUID and checksum *)
+Lemma vol_finish_ref ffs3 p g len0 ck0 count0 off rz fs F len' count' :
+  vp_ok p -> zlen g = 16 ->
+  let D := vp_D p in
+  let b1 := (fv_header (vp_zero p) g len0 (vp_attrs p) ck0 (vp_eo p) (vp_reserved p) (vp_rev p) count0
+                       (vp_bsize p) (vp_more p) ++ vp_ext p) ++ play D F in
+  zlen b1 <= len' -> len' mod 8 = 0 ->
+  let g' := if ffs3 && bytes_eqb g FFS2 then FFS3 else g in
+  let free' := len' - D - zlen (flay F) in
+  0 <= free' /\
+  vol_finish 255 ffs3 (vp_hdr p g len0 ck0 count0 off rz fs) b1 len' ((count', vp_bsize p) :: vp_more p) =
+    Ok (vp_hdr p g' len' ck0 count' off rz ((len' - align8 (zlen b1)) mod U64),
+        vp_bytes p g' count' F free').
+Proof using Type. clear_sec.
+  intros Hp Lg D b1 Hle Hm8 g' free'.
+  pose proof (vp_D_mod8 p Hp) as (HD8 & HD72 & Heo).
+  destruct Hp as (Lz & Hat & Hpolb & Hs & Hmore & Hhl & Hext).
+  destruct p as [zero attrs reserved rev bsize more eo ext].
+  unfold vp_D, vp_hdr, vp_bytes, ref_hdr in *.
+  cbn [vp_zero vp_attrs vp_reserved vp_rev vp_bsize vp_more vp_eo vp_ext] in *.
+  pose proof (fv_hlen_ge more) as Hhg. pose proof (fv_hlen_even more) as Hev.
+  set (HL := fv_hlen more) in *.
+  set (hdr0 := fv_header zero g len0 attrs ck0 eo reserved rev count0 bsize more) in *.
+  assert (Lh0 : zlen hdr0 = HL) by (apply zlen_fv_header; auto).
+  assert (LP : zlen (hdr0 ++ ext) = D) by (rewrite zlen_app, Lh0; reflexivity).
+  assert (AD : align8 D = D) by (apply align8_unique; lia).
+  pose proof (zlen_nonneg (play D F)) as Hpl. pose proof (zlen_nonneg (flay F)) as Hfl.
+  assert (Lb1 : zlen b1 = D + zlen (play D F)) by (unfold b1; rewrite zlen_app, LP; reflexivity).
+  pose proof (play_flay_len F D ltac:(lia)) as PL. rewrite AD in PL.
+  assert (Hal : align8 (zlen b1) = D + zlen (flay F)) by (rewrite Lb1; exact PL).
+  assert (Hfree : 0 <= free').
+  { pose proof (align8_le len' (zlen b1) ltac:(lia) Hle Hm8). unfold free'. lia. }
+  split; [exact Hfree|].
+  assert (Lg' : zlen g' = 16) by (unfold g'; destruct (ffs3 && bytes_eqb g FFS2); [reflexivity|exact Lg]).
+  set (tail := ext ++ flay F ++ zrepeat 255 free').
+  assert (Eb2 : (if zlen b1 <? len' then b1 ++ zrepeat 255 (len' - zlen b1) else b1) = hdr0 ++ tail).
+  { pose proof (play_flay F (hdr0 ++ ext) free' Hfree) as PF. rewrite LP in PF.
+    rewrite AD, Z.sub_diag in PF. change (zrepeat 255 0) with (@nil Z) in PF. cbn [app] in PF.
+    fold b1 in PF.
+    replace (D + zlen (flay F) + free' - zlen b1) with (len' - zlen b1) in PF by (unfold free'; lia).
+    replace ((hdr0 ++ ext) ++ flay F ++ zrepeat 255 free') with (hdr0 ++ tail) in PF
+      by (unfold tail; rewrite <- !app_assoc; reflexivity).
+    rewrite PF. destruct (zlen b1 <? len') eqn:E; [reflexivity|].
+    replace (len' - zlen b1) with 0 by lia. change (zrepeat 255 0) with (@nil Z). rewrite app_nil_r. reflexivity. }
+  assert (Lt : zlen tail = zlen ext + zlen (flay F) + free')
+    by (unfold tail; rewrite !zlen_app, FfsVolLemmas.zlen_zrepeat by lia; lia).
+  assert (Lv : zlen (hdr0 ++ tail) = len') by (rewrite zlen_app, Lh0, Lt; unfold free', D; lia).
+  pose proof (zlen_nonneg tail) as Htl. pose proof (zlen_nonneg ext) as Hxn.
+  unfold vol_finish. cbv zeta. rewrite Eb2. rewrite Lv.
+  cbn [v_guid v_hdrlen v_zero v_sig v_attrs v_cksum v_exthdroff v_reserved v_rev v_extname v_extsize
+       v_dataoff v_fvoffset v_resizable].
+  replace (len' <? 40) with false by lia.
+  unfold hdr0. rewrite hdr_splice_len by assumption.
+  set (hdr1 := fv_header zero g len' attrs ck0 eo reserved rev count0 bsize more).
+  assert (E4 : (if ffs3 && bytes_eqb g FFS2 then splice 16 FFS3 (hdr1 ++ tail) else hdr1 ++ tail) =
+               fv_header zero g' len' attrs ck0 eo reserved rev count0 bsize more ++ tail).
+  { unfold g'. destruct (ffs3 && bytes_eqb g FFS2); [|reflexivity].
+    unfold hdr1. apply hdr_splice_guid; auto. }
+  rewrite E4. fold g'.
+  assert (Lh2 : forall l c k, zlen (fv_header zero g' l attrs c eo reserved rev k bsize more) = HL)
+    by (intros; apply zlen_fv_header; auto).
+  rewrite zlen_app, Lh2, Lt.
+  replace (HL + (zlen ext + zlen (flay F) + free') <? 60) with false by lia.
+  rewrite hdr_splice_count by assumption.
+  change [0; 0] with (le_enc 2 0). rewrite hdr_splice_ck by assumption.
+  set (hdrz := fv_header zero g' len' attrs 0 eo reserved rev count' bsize more).
+  rewrite slice_ok by (rewrite ?zlen_app; unfold hdrz; rewrite ?Lh2; lia).
+  rewrite Z.sub_0_r.
+  replace (sub 0 HL (hdrz ++ tail)) with hdrz by (symmetry; apply sub_app_here; apply Lh2).
+  rewrite Hev. cbn [negb]. cbv iota.
+  unfold hdrz. rewrite hdr_splice_ck by assumption.
+  f_equal. f_equal.
+  unfold vol_bytes_x. fold HL.
+  replace (HL + zlen ext + zlen (flay F) + free') with len' by (unfold free', D; lia).
+  unfold fv_cksum. unfold tail. reflexivity.
+Qed.
+
+
+Lemma mod_pow2_8 x k : 3 <= k -> x mod 2 ^ k = 0 -> x mod 8 = 0.
+Proof using Type. clear_sec.
+  intros Hk Hm. assert (Hp : 0 < 2 ^ k) by (apply Z.pow_pos_nonneg; lia).
+  pose proof (Z.div_mod x (2 ^ k) ltac:(lia)) as Dm. rewrite Hm in Dm.
+  replace (2 ^ k) with (8 * 2 ^ (k - 3)) in Dm
+    by (change 8 with (2 ^ 3); rewrite <- Z.pow_add_r by lia; f_equal; lia).
+  rewrite Dm. rewrite Z.add_0_r. rewrite <- Z.mul_assoc. rewrite Z.mul_comm. apply Z.mod_mul. lia.
+Qed.
+
+(* Assemble of a reference-layout volume whose files have been re-assembled: the new volume is in the
+   reference layout again; it keeps its length when the files fit, and a nested volume grows to whole
+   blocks when they do not *)
+Lemma asm_vol_ref ffs3 p g len0 ck0 count0 off rz fs buf kids :
+  vp_ok p -> (g = FFS2 \/ g = FFS3) -> kids <> [] -> 0 <= count0 < 2 ^ 32 ->
+  let D := vp_D p in
+  let F := map node_buf kids in
+  sub 0 D buf = fv_header (vp_zero p) g len0 (vp_attrs p) ck0 (vp_eo p) (vp_reserved p) (vp_rev p) count0
+                          (vp_bsize p) (vp_more p) ++ vp_ext p ->
+  D <= zlen buf <= len0 ->
+  Forall (fun k => 0 < zlen (node_buf k)) kids -> files_aligned D F = true ->
+  map node_attr kids = map (rd 19 1) F ->
+  let newlen := D + zlen (play D F) in
+  (newlen <= len0 /\ len0 mod 8 = 0 \/
+   rz = true /\ len0 < newlen /\ exists k, 3 <= k < 64 /\ vp_bsize p = 2 ^ k /\ newlen + 2 ^ k <= 2 ^ 64) ->
+  let g' := if ffs3 && bytes_eqb g FFS2 then FFS3 else g in
+  exists len' count' free' fs',
+    asm_vol 255 ffs3 (vp_hdr p g len0 ck0 count0 off rz fs) buf kids =
+      Ok (vp_hdr p g' len' ck0 count' off rz fs', vp_bytes p g' count' F free') /\
+    0 <= free' /\ 0 <= count' < 2 ^ 32 /\ len' = D + zlen (flay F) + free' /\ len0 <= len' /\
+    (len' = len0 \/ (rz = true /\ len' = align newlen (vp_bsize p) /\ count' = (len' / vp_bsize p) mod U32)).
+Proof using Type. clear_sec.
+  intros Hp Hg Hne Hc0 D F Hsub Hbuf Hpos Hal Hattr newlen Hcase g'.
+  pose proof (vp_D_mod8 p Hp) as (HD8 & HD72 & Heo). fold D in HD8, HD72.
+  assert (Lg : zlen g = 16) by (destruct Hg as [-> | ->]; reflexivity).
+  assert (Sg : supported_fv g = true) by (destruct Hg as [-> | ->]; reflexivity).
+  assert (AD : align8 D = D) by (apply align8_unique; lia).
+  set (hdr0 := fv_header (vp_zero p) g len0 (vp_attrs p) ck0 (vp_eo p) (vp_reserved p) (vp_rev p) count0
+                         (vp_bsize p) (vp_more p)) in *.
+  assert (LP : zlen (hdr0 ++ vp_ext p) = D).
+  { unfold hdr0. rewrite zlen_app, zlen_fv_header by (try apply Hp; assumption). reflexivity. }
+  rewrite asm_vol_eq. set (h := vp_hdr p g len0 ck0 count0 off rz fs).
+  change (v_guid h) with g. change (v_length h) with len0.
+  change (v_blocks h) with ((count0, vp_bsize p) :: vp_more p). change (v_dataoff h) with D.
+  change (v_hdrlen h) with (fv_hlen (vp_more p)). change (v_resizable h) with rz. rewrite Sg.
+  destruct kids as [|k0 kr]; [congruence|]. cbn [andb]. set (kids := k0 :: kr) in *.
+  replace (len0 <? zlen buf) with false by lia.
+  replace (D <? fv_hlen (vp_more p)) with false by (unfold D, vp_D; pose proof (zlen_nonneg (vp_ext p)); lia).
+  replace (zlen buf <? D) with false by lia.
+  rewrite slice_ok by lia. rewrite Z.sub_0_r. cbn [of_opt bind]. rewrite Hsub.
+  assert (PP : place_files 255 (if rz then None else Some len0) (hdr0 ++ vp_ext p) (zlen (hdr0 ++ vp_ext p)) kids =
+               Ok ((hdr0 ++ vp_ext p) ++ play (zlen (hdr0 ++ vp_ext p)) (map node_buf kids))).
+  { apply place_files_play; auto.
+    - rewrite LP, AD. exact Hal.
+    - rewrite LP. destruct rz; [exact I|]. fold F. fold newlen.
+      destruct Hcase as [[H1 _]|[H1 _]]; [exact H1|discriminate]. }
+  rewrite LP in PP. fold F in PP. rewrite PP. cbn [bind].
+  set (b1 := (hdr0 ++ vp_ext p) ++ play D F).
+  assert (Lb1 : zlen b1 = newlen) by (unfold b1, newlen; rewrite zlen_app, LP; reflexivity).
+  pose proof (zlen_nonneg (play D F)) as Hpl.
+  destruct Hcase as [[Hfit Hm8]|(Hrz & Hgrow & k & Hk & Hbs & Hbound)].
+  - (* the files fit *)
+    replace ((len0 <? zlen b1) && negb rz) with false by lia.
+    replace (len0 <? zlen b1) with false by lia. cbn [bind].
+    destruct (vol_finish_ref ffs3 p g len0 ck0 count0 off rz fs F len0 count0 Hp Lg ltac:(fold D; fold hdr0; fold b1; lia) Hm8)
+      as (Hfree & Hfin).
+    fold D in Hfin, Hfree. fold hdr0 in Hfin. fold b1 in Hfin. fold g' in Hfin.
+    fold h in Hfin. rewrite Hfin.
+    eexists len0, count0, _, _. split; [reflexivity|]. repeat split; try lia.
+  - (* a nested volume grows *)
+    subst rz. replace ((len0 <? zlen b1) && negb true) with false by (rewrite andb_false_r; reflexivity).
+    replace (len0 <? zlen b1) with true by lia.
+    assert (Hbp : 0 < vp_bsize p) by (rewrite Hbs; apply Z.pow_pos_nonneg; lia).
+    replace (vp_bsize p =? 0) with false by lia. cbn [bind].
+    destruct (align_go_pow2 (zlen b1) k ltac:(lia) ltac:(lia) ltac:(lia)) as (Eal & Bal & Mal).
+    rewrite <- Hbs in Eal, Bal, Mal.
+    set (len' := align_go (zlen b1) (vp_bsize p)) in *.
+    assert (Hm8 : len' mod 8 = 0).
+    { rewrite Eal. apply (mod_pow2_8 _ k); [lia|]. rewrite <- Hbs. exact Mal. }
+    destruct (vol_finish_ref ffs3 p g len0 ck0 count0 off true fs F len' ((len' / vp_bsize p) mod U32) Hp Lg
+                ltac:(fold D; fold hdr0; fold b1; rewrite Eal; lia) Hm8) as (Hfree & Hfin).
+    fold D in Hfin, Hfree. fold hdr0 in Hfin. fold b1 in Hfin. fold g' in Hfin.
+    fold h in Hfin. rewrite Hfin.
+    eexists len', _, _, _. split; [reflexivity|].
+    assert (0 <= (len' / vp_bsize p) mod U32 < 2 ^ 32) by (apply Z.mod_pos_bound; reflexivity).
+    repeat split; try lia.
+    + rewrite Eal. lia.
+    + right. repeat split. rewrite Eal, Lb1. reflexivity.
 Qed.
 
 End Codec.
